@@ -21,7 +21,65 @@ STUB = ['thread scheduler', 'clock', 'process runs: simulated OS boundary']
 ASSUMPTIONS = ['StopRequested latency is evaluated in exact-time runs only']
 
 
+def proc_supplier(iq, si, k, delay):
+    for j in range(k):
+        if delay:
+            time.sleep(delay)
+        iq.put((0, si, j))
+    iq.put_end()
+    return k
+
+
+def proc_consumer(iq, delay):
+    got = []
+    for z in iq:
+        got.append(tuple(z))
+        if delay:
+            time.sleep(delay)
+    return got
+
+
+def run_processes(sim, sc):
+    """suppliers and consumers are (simulated) processes sharing an IterableQueue over a multiprocessing queue"""
+    from mpservice.multiprocessing import Process, Queue
+    from mpservice.queue import IterableQueue
+    m, n = sc['m'], sc['n']
+    q = Queue(maxsize=sc['maxsize']) if sc['maxsize'] else Queue()
+    iq = IterableQueue(q, num_suppliers=m)
+    cons = [Process(target=proc_consumer, args=(iq, sc['get_delays'][0]), name=f'harness-consumer-proc-{i}') for i in range(n)]
+    sups = [Process(target=proc_supplier, args=(iq, i, sc['items'][0][i], sc['put_delays'][0]), name=f'harness-supplier-proc-{i}') for i in range(m)]
+    for p in cons + sups:
+        p.start()
+    got = []
+    for p in sups:
+        try:
+            p.result(timeout=200)
+        except Exception as e:
+            if sim.time_mode == 'racy' and 'put_end` is called more than' in repr(e):
+                sim.count('racy_put_end_probe_timeout')  # the library's 10 ms token probe vs a slow queue feeder: timing assumption, see run()
+                return {}
+            sim.violation('party:supplier-process-failed', {'exc': repr(e)[:200]})
+            return {}
+    for p in cons:
+        try:
+            got.extend(p.result(timeout=200))
+        except Exception as e:
+            sim.violation('liveness:consumer-iteration-did-not-end:processes' if 'Timeout' in type(e).__name__ else 'party:consumer-process-failed', {'exc': repr(e)[:200]})
+            return {}
+    want = sorted((0, si, k) for si in range(m) for k in range(sc['items'][0][si]))
+    if sorted(got) != want:
+        sig = 'delivery:item-received-twice' if len(got) != len(set(got)) else 'delivery:items-lost-or-consumer-ended-early'
+        sim.violation(sig + ':processes', {'got': sorted(got), 'want': want})
+    return {'rounds': 1}
+
+
 def gen(rng, tier):
+    if PROC_READY and rng.random() < 0.12:
+        m, n = rng.choice([1, 2, 3]), rng.choice([1, 2, 3])
+        sc = {'mode': 'processes', 'm': m, 'n': n, 'rounds': 1, 'qkind': 'mp', 'maxsize': rng.choice([0, 1, 3]),
+              'items': [[rng.choice([0, 1, 2, 5]) for _ in range(m)]], 'put_delays': [rng.choice([0, 0.001])], 'get_delays': [rng.choice([0, 0.001])],
+              'wait_for_renew': False, 'to_stop': None}
+        return {'scenario': sc, 'sim': swarm(rng, racy=0.1, line=0.2, max_time=600.0, max_steps=1_500_000, pipe_cap=rng.choice([4096, 65536]))}
     m = rng.choice([1, 1, 2, 2, 3])
     n = rng.choice([1, 2, 2, 3])
     rounds = rng.choice([1, 1, 2, 3])
@@ -46,6 +104,12 @@ def gen(rng, tier):
 
 
 def shrink(sc):
+    if sc.get('mode') == 'processes':
+        if sc['n'] > 1:
+            yield dict(sc, n=sc['n'] - 1)
+        if sc['m'] > 1:
+            yield dict(sc, m=sc['m'] - 1, items=[r[:-1] for r in sc['items']])
+        return
     if sc['rounds'] > 1:
         yield dict(sc, rounds=sc['rounds'] - 1, items=sc['items'][:-1])
     if sc['n'] > 1:
@@ -64,7 +128,7 @@ def shrink(sc):
 
 
 def tags(sim, sc, obs):
-    t = ['m:%d' % sc['m'], 'n:%d' % sc['n'], 'rounds:%d' % sc['rounds'], 'q:' + sc['qkind']]
+    t = ['parties:' + ('processes' if sc.get('mode') == 'processes' else 'threads'), 'm:%d' % sc['m'], 'n:%d' % sc['n'], 'rounds:%d' % sc['rounds'], 'q:' + sc['qkind']]
     if sc.get('to_stop') and sc['to_stop']['at'] is not None:
         t.append('stop-requested')
     return t
@@ -75,6 +139,8 @@ def nontrivial(sim, sc, obs):
 
 
 def run(sim, sc):
+    if sc.get('mode') == 'processes':
+        return run_processes(sim, sc)
     from mpservice.queue import IterableQueue
     from mpservice._common import StopRequested
     m, n, rounds = sc['m'], sc['n'], sc['rounds']
